@@ -51,7 +51,7 @@ ARRAYS_T = ("a", "ab", "ba", "cab", "abc", "abcd", "dbca")
 PATTERNS = ("all2", "all3", "2323")
 LONG = {"5222": (5, 2, 2, 2, 2), "2522": (2, 5, 2, 2, 2), "2252": (2, 2, 5, 2, 2)}
 S.PATTERNS.update(LONG)
-MODES = ("read", "w-number", "w-ndarray", "w-flodym")
+MODES = ("read", "w-number", "w-ndarray", "w-flodym", "w-flodym-rev")
 
 
 def bounds(tier):
@@ -259,6 +259,8 @@ def run_case(pattern, dims, sel, form, mode):
         else:
             if has_list:
                 return "n/a", None
+            if mode == "w-flodym-rev" and len(region.letters) < 2:
+                return "n/a", None
             from flodym import DimensionSet, FlodymArray
 
             dl = []
@@ -267,6 +269,9 @@ def run_case(pattern, dims, sel, form, mode):
                     dl.append(X.dims[l])
                 else:
                     dl.append(S.make_dimension(l, region.items[l], name="Sub" + dims[[SUBL[S.LETTERS.index(x)] for x in dims].index(l)].upper()))
+            if mode == "w-flodym-rev":  # the same right-hand side stored with its dimensions in reverse order
+                dl = dl[::-1]
+                vals = np.ascontiguousarray(vals.transpose(tuple(reversed(range(vals.ndim)))))
             rhs = FlodymArray(dims=DimensionSet(dim_list=dl), values=vals)
 
     def do():
@@ -300,7 +305,7 @@ def run_grid(u, res):
         anysel = any(s[0] != "none" for s in sel)
         for form in FORMS:
             for mode in MODES:
-                if has_list and mode in ("read", "w-flodym"):
+                if has_list and mode in ("read", "w-flodym", "w-flodym-rev"):
                     continue
                 oc, f = run_case(u["pattern"], dims, sel, form, mode)
                 if oc == "n/a":
@@ -328,7 +333,7 @@ def run_long(u, res):
                 sel.insert(pos, [kind, list(longitems)])
                 for form in ("dict-letter", "dict-name", "tuple"):
                     for mode in MODES:
-                        if kind == "list" and mode in ("read", "w-flodym"):
+                        if kind == "list" and mode in ("read", "w-flodym", "w-flodym-rev"):
                             continue
                         oc, f = run_case(u["pattern"], dims, sel, form, mode)
                         if oc == "n/a":
@@ -342,15 +347,15 @@ def run_long(u, res):
 
 # ---- error universe ------------------------------------------------------------------------------
 
-ERR_DIMS = [("o", "Origin", ["EUR", "USA"]), ("d", "Destination", ["USA", "CHN"]), ("t", "Time", [2000, 2001]), ("m", "Material", ["steel", "wood"])]
-POOL = ["EUR", "USA", "CHN", 2000, "steel", "nope", 2001]
+ERR_DIMS = [("o", "Origin", ["EUR", "USA"]), ("d", "Destination", ["USA", "CHN"]), ("t", "Time", [1990, 2000, 2010]), ("m", "Material", ["steel", "wood"])]
+POOL = ["EUR", "USA", "CHN", 2000, "steel", "nope", 2010]
 
 
 def err_array():
     from flodym import Dimension, DimensionSet, FlodymArray
 
     ds = DimensionSet(dim_list=[Dimension(name=n, letter=l, items=list(it)) for l, n, it in ERR_DIMS])
-    v = np.arange(16.0).reshape(2, 2, 2, 2) + 1
+    v = np.arange(24.0).reshape(2, 2, 3, 2) + 1
     X = FlodymArray(dims=ds, values=v.copy())
     items = {l: tuple(it) for l, _, it in ERR_DIMS}
     m = R.MArr(tuple(l for l, _, _ in ERR_DIMS), items, observe.nd_by_label(v, [items[l] for l, _, _ in ERR_DIMS]))
@@ -367,6 +372,9 @@ def err_cases(part):
         ("slice", "0:1"), ("slice-tuple", ""), ("dict-slice", ""), ("int-position", ""), ("nonsubset-dim", ""), ("nonsubset-dim-partial", ""),
         ("unknown-dim-key", ""), ("unknown-item-in-dict", ""), ("unknown-item-in-list", ""), ("ambiguous-bare", ""), ("named-ambiguous-ok", "o"),
         ("named-ambiguous-ok", "d"), ("named-ambiguous-ok", "Origin"), ("wrong-dim-for-item", ""), ("bare-int-item", ""),
+        ("unknown-number", 1995), ("unknown-number", 1980), ("unknown-number", 2020), ("unknown-number", 2005), ("unknown-number", 2000.5),
+        ("unknown-number-bare", 1995), ("unknown-number-in-list", 1995), ("unknown-number-in-list", 2020), ("unknown-number-by-name", 2005),
+        ("unknown-number-in-subset", 1995),
     ]
     cases += [("ill", list(i)) for i in ill]
     return [c for i, c in enumerate(cases) if i % 4 == part]
@@ -389,7 +397,7 @@ def run_err_case(kind, spec, mode):
             must_raise = True
         else:
             per = {}
-            owner = {"EUR": "o", "CHN": "d", 2000: "t", 2001: "t", "steel": "m"}
+            owner = {"EUR": "o", "CHN": "d", 2000: "t", 2010: "t", "steel": "m"}
             for it in spec:
                 per.setdefault(owner[it], []).append(it)
             expect_sel = {l: (("item", v[0]) if len(v) == 1 else ("sub", l, tuple(v))) for l, v in per.items()}
@@ -427,9 +435,21 @@ def run_err_case(kind, spec, mode):
             must_raise = False
             expect_sel = {("o" if arg in ("o", "Origin") else "d"): ("item", "USA")}
         elif name == "bare-int-item":
-            key = 2001
+            key = 2010
             must_raise = False
-            expect_sel = {"t": ("item", 2001)}
+            expect_sel = {"t": ("item", 2010)}
+        elif name == "unknown-number":
+            key = {"t": arg}
+        elif name == "unknown-number-by-name":
+            key = {"Time": arg}
+        elif name == "unknown-number-bare":
+            key = arg
+        elif name == "unknown-number-in-list":
+            key = {"t": [2000, arg]}
+            if mode == "read":
+                return "n/a", None
+        elif name == "unknown-number-in-subset":
+            key = {"t": Dimension(name="Years", letter="y", items=[2000, arg])}
     if mode == "read":
         st, got = attempt(lambda: X[key])
     else:
@@ -515,7 +535,46 @@ def run_split_case(pattern, dims, letter):
     return "split-agrees", None
 
 
+LONG_ITEMS = {"m": ("Construction and demolition waste", "Municipal solid waste (mixed, unsorted fraction)", "x"), "t": (1990, 2000), "r": ("a region with a rather long name", "EU")}
+
+
+def run_where_long_case(dims, marked):
+    """labels longer than any fixed-width string buffer, and integer labels"""
+    from flodym import Dimension, DimensionSet, FlodymArray
+
+    case = dict(kind="where-long", dims=dims, marked=marked)
+    names = {"m": "Material", "t": "Time", "r": "Region"}
+    ds = DimensionSet(dim_list=[Dimension(name=names[l], letter=l, items=list(LONG_ITEMS[l])) for l in dims])
+    X = FlodymArray(dims=ds, values=np.zeros(ds.shape))
+    labs = list(itertools.product(*[LONG_ITEMS[l] for l in dims]))
+    for k in marked:
+        X.values[tuple(LONG_ITEMS[l].index(it) for l, it in zip(dims, labs[k]))] = -99.0
+    st, got = attempt(lambda: X.items_where(lambda v: v == -99.0))
+    if st == "raised":
+        return "fail", dict(case=case, tags=dict(mode="items_where", kind="raised"), what=f"items_where raised {got}")
+    rows = sorted(tuple(str(x) for x in r) for r in np.asarray(got).reshape(-1, len(dims)).tolist())
+    want = sorted(tuple(str(x) for x in labs[k]) for k in marked)
+    if rows != want:
+        return "fail", dict(case=case, tags=dict(mode="items_where", kind="labels"), what=f"items_where on dims {dims!r} with long / integer labels: reported {rows}, entries are at {want}")
+    parts = X.split(dims[0])
+    if [str(k) for k in parts.keys()] != [str(i) for i in LONG_ITEMS[dims[0]]]:
+        return "fail", dict(case=case, tags=dict(mode="split", kind="keys"), what=f"split keys {list(parts.keys())}")
+    return "where-agrees", None
+
+
 def run_where(u, res):
+    if u["pattern"] == "all2":
+        for dims in ("m", "mt", "tm", "rmt", "tr"):
+            n = 1
+            for l in dims:
+                n *= len(LONG_ITEMS[l])
+            for marked in [[k] for k in range(n)] + [[0, n - 1]]:
+                oc, f = run_where_long_case(dims, marked)
+                res["evals"] += 1
+                res["nontrivial"] += 1
+                res["outcomes"][oc] = res["outcomes"].get(oc, 0) + 1
+                if f:
+                    res["fails"].append(f)
     X, m, items = make_target(u["pattern"], tuple(u["dims"]))
     n = len(m.data)
     marks = [[k] for k in range(n)] + [[i, j] for i in range(n) for j in range(i + 1, n) if n <= 12 or (i + j) % 5 == 0]
@@ -560,6 +619,8 @@ def replay(case):
         oc, f = run_err_case(case["ekind"], case["spec"], case["mode"])
     elif k == "where":
         oc, f = run_where_case(case["pattern"], case["dims"], case["marked"])
+    elif k == "where-long":
+        oc, f = run_where_long_case(case["dims"], case["marked"])
     else:
         oc, f = run_split_case(case["pattern"], case["dims"], case["letter"])
     return [f] if f else []
